@@ -140,10 +140,8 @@ class Shadow:
         elif k == "sb":
             keys = list(dict.fromkeys(a[1:]))
             self.byname[o] = dict(zip(keys, self.fresh(len(keys))))
-        elif k == "du":
-            keys = list(dict.fromkeys(a[1:]))
-            for key, v in zip(keys, self.fresh(len(keys))):
-                self.byname[o][key] = v
+        elif k == "ds":
+            self.byname[o][a[1]] = self.fresh(1)[0]
         elif k == "dd":
             if a[1] not in self.byname[o]:
                 return False
@@ -189,7 +187,7 @@ def _op_on(rng, sh, o, a, cap):
     if r < 0.15:
         return ["sb", o] + rng.sample(range(4), rng.choice([0, 1, 2, 2, 3]))
     if r < 0.55:
-        return ["du", o] + rng.sample(range(4), rng.choice([1, 1, 1, 2, 3]))
+        return ["ds", o, rng.choice(keys) if (keys and rng.random() < 0.45) else rng.randrange(4)]
     if r < 0.85 and keys:
         return ["dd", o, rng.choice(keys)]
     if r < 0.93:
@@ -277,7 +275,7 @@ def _alphabet(name):
             elif a == "k":
                 al += [["sk", o, 1], ["ap", o], ["dl", o, 0], ["sl", o, 0, 1, 1], ["cl", o]]
             else:
-                al += [["sb", o, 1], ["du", o, 0], ["du", o, 0, 2], ["dd", o, 0], ["dc", o]]
+                al += [["sb", o, 1], ["ds", o, 0], ["ds", o, 2], ["dd", o, 0], ["dc", o]]
     return al
 
 
@@ -473,15 +471,10 @@ class World:
             self.current = (i, "b")
             o.byname = dict(("k%d" % key, v) for key, v in zip(keys, self.fresh(len(keys))))
             return (i, "b", bool(old or keys))
-        if k == "du":
-            keys = list(dict.fromkeys(a[1:]))
+        if k == "ds":
             self.current = (i, "bi")
-            new = dict(("k%d" % key, v) for key, v in zip(keys, self.fresh(len(keys))))
-            if len(keys) == 1:
-                o.byname["k%d" % keys[0]] = new["k%d" % keys[0]]
-            else:
-                o.byname.update(new)
-            return (i, "bi", bool(keys))
+            o.byname["k%d" % a[1]] = self.new()
+            return (i, "bi", True)
         if k == "dd":
             self.current = (i, "bi")
             if ("k%d" % a[1]) not in o.__dict__.get("byname", {}):
